@@ -42,6 +42,31 @@ def sample(shapes, n, seed):
     return chosen
 
 
+def cases_of_errors(main_rs, errs):
+    """Maps compile errors to the generated cases they sit in (by the `// case fN` markers).
+    Returns (set of case indexes, number of errors outside any case)."""
+    starts = []
+    for i, line in enumerate(main_rs.splitlines(), 1):
+        if line.startswith("// case f"):
+            starts.append((i, int(line[len("// case f"):])))
+        if line.startswith("fn main()"):
+            starts.append((i, None))
+    hit, outside = set(), 0
+    for (f, ln, _code, _msg) in errs:
+        if not f or not f.endswith("main.rs"):
+            outside += 1
+            continue
+        cur = None
+        for (st, n) in starts:
+            if st <= ln:
+                cur = (st, n)
+        if cur is None or cur[1] is None:
+            outside += 1
+        else:
+            hit.add(cur[1])
+    return hit, outside
+
+
 def render(cases):
     L = ["mod prelude;", "use prelude::*;", "use unimock::*;", "use std::future::Future;", ""]
     exp = {}
@@ -72,6 +97,7 @@ def render(cases):
         writes = "".join(("*a%d += 100; " % (i + 1)) if k == "mu8" else ("a%d.push(%d); " % (i + 1, i + 101)) if k in ("mvec", "mlvec") else "" for i, k in enumerate(params))
         retexpr = {"u32": "4242u32", "string": 'String::from("ret")', "opt": "Some(7u32)", "ref": None, "sref": None, "optref": None,
                    "static": '"lit"', "assoc": "4242u32", "pref": "a1", "dynref": None, "boxdyn": "Box::new(78u32) as Box<dyn std::fmt::Display>"}[ret]
+        L.append("// case f%d" % n)
         if api == "hidden":
             L.append("#[unimock(unmock_with=[real_%d])]" % n)
             L.append("trait Tr%d { %s }" % (n, sig))
